@@ -1,28 +1,4 @@
-// ---------- spec of C17 (names), written from the property statement ----------
-spec fn item_name(it: ast::Item) -> Seq<char> {
-    match it {
-        ast::Item::Interface(i) => i.name@,
-        ast::Item::Parcelable(p) => p.name@,
-        ast::Item::Enum(e) => e.name@,
-    }
-}
-
-// the key under which a file is registered: `package.Name`
-spec fn key_of(a: ast::Aidl) -> Seq<char> { a.package.name@ + "."@ + item_name(a.item) }
-
-spec fn kind_of(it: ast::Item) -> ResolvedItemKind {
-    match it {
-        ast::Item::Interface(_) => ResolvedItemKind::Interface,
-        ast::Item::Parcelable(_) => ResolvedItemKind::Parcelable,
-        ast::Item::Enum(_) => ResolvedItemKind::Enum,
-    }
-}
-
-// dotted name of an import / forward declaration
-spec fn import_qname(i: ast::Import) -> Seq<char> {
-    if i.path@.len() == 0 { i.name@ } else { i.path@ + "."@ + i.name@ }
-}
-
+// ---------- spec of C17 (symbol names), written from the property statement ----------
 spec fn owner_name(o: ConstOwner) -> Seq<char> {
     match o { ConstOwner::Interface(i) => i.name@, ConstOwner::Parcelable(p) => p.name@ }
 }
